@@ -803,6 +803,60 @@ def invalid_subset_family():
             fail("invalid_subset(switch): an address no branch traces is not reported", order=order)
 
 
+def stateful_family():
+    """C36: a handler that handles nothing is transparent - same values AND dtypes as ordinary evaluation for programs with
+    cond / scan / while, Python-scalar arguments meeting narrow dtypes, closed-over constants, and an unhandled initial-style
+    primitive whose wrapped function closes over a constant, a traced intermediate, a cond result"""
+    import numpy as np
+    from genjax._src.core.compiler.initial_style_primitive import InitialStylePrimitive, initial_style_bind
+    from genjax._src.core.compiler.interpreters.stateful import StatefulHandler, stateful
+
+    class Null(StatefulHandler):
+        def handles(self, primitive):
+            return False
+
+        def dispatch(self, primitive, *args, **kwargs):
+            raise AssertionError("unreachable")
+    call_p = InitialStylePrimitive("verif_call")
+    call = lambda f, *a: initial_style_bind(call_p)(f)(*a)
+    TABLE = jnp.array([10.0, 20.0, 30.0])
+
+    def traced_closure(x):
+        y = x * 2.0
+        return call(lambda z: (z + y, jnp.where(z > 1.0, y, -y)), x + 1.0)
+
+    def traced_closure_ref(x):
+        y, z = x * 2.0, x + 1.0
+        return z + y, jnp.where(z > 1.0, y, -y)
+
+    def cond_closure(x):
+        s = jax.lax.cond(x.sum() > 0, lambda: x, lambda: -x)
+        return call(lambda z: z * s, jnp.ones_like(x))
+    x = jnp.arange(3.0)
+    progs = [
+        ("arith+cond+scan", lambda a: jax.lax.cond(a.sum() > 1, lambda: jax.lax.scan(lambda c, s: (c + s, c * s), 0.0, a), lambda: (a.sum(), a)), None, (x,)),
+        ("while", lambda a: jax.lax.while_loop(lambda t: t[0] < 3, lambda t: (t[0] + 1, t[1] * a), (0, a)), None, (x,)),
+        ("closed-over constant", lambda a: a + TABLE, None, (x,)),
+        ("uint8 array + python int", lambda k, a: a + k, None, (100, jnp.array([100, 200], dtype=jnp.uint8))),
+        ("float16 array * python float", lambda s, a: a * s + 1, None, (0.1, jnp.array([1.0, 2.0], dtype=jnp.float16))),
+        ("int8 array under cond with python int", lambda k, a: jax.lax.cond(a[0] > 0, lambda: a * k, lambda: a - k), None, (3, jnp.array([5, 50], dtype=jnp.int8))),
+        ("initial-style: no closure", lambda a: call(lambda z: (jnp.sin(z), z * 3.0), a + 1.0), lambda a: (jnp.sin(a + 1.0), (a + 1.0) * 3.0), (x,)),
+        ("initial-style: concrete closure", lambda a: call(lambda z: z + TABLE, a), lambda a: a + TABLE, (x,)),
+        ("initial-style: closure over a traced intermediate", traced_closure, traced_closure_ref, (x,)),
+        ("initial-style: closure over a cond result", cond_closure, lambda a: jnp.ones_like(a) * jax.lax.cond(a.sum() > 0, lambda: a, lambda: -a), (x,)),
+    ]
+    for name, fn, ref, args in progs:
+        want = jax.tree_util.tree_leaves((ref or fn)(*args))
+        try:
+            got = jax.tree_util.tree_leaves(stateful(fn)(Null(), *args))
+        except Exception as e:
+            fail("stateful interpreter with a handler that handles nothing raises", program=name, error=f"{type(e).__name__}: {str(e).splitlines()[0][:120]}")
+            continue
+        if len(want) != len(got) or not all(jnp.asarray(a).dtype == jnp.asarray(b).dtype and np.array_equal(np.asarray(a), np.asarray(b)) for a, b in zip(want, got)):
+            fail("stateful interpreter with a handler that handles nothing differs from ordinary evaluation (value or dtype)",
+                 program=name, direct=want, interpreted=got)
+
+
 def incremental_family():
     """C09: the incremental interpreter on small programs (closed-over array constants, multi-result primitives with dropped
     results, literals, cond / scan / while): primal outputs equal ordinary evaluation, and an output tagged NoChange keeps its
@@ -1257,7 +1311,7 @@ def selection_family():
 FAMILIES = [
     (("C19.Mask.", "Mask._or_idx"), mask_algebra_family), (("C18.",), selection_family), ((".Diff.",), diff_family),
     (("C28.", "sample_momenta"), hmc_family), (("C20.", "FlagOp", "multi_switch", "tree_choose"), staging_family), (("C33.",), invalid_subset_family),
-    (("C09.", "incremental"), incremental_family), (("C04.",), key_family), (("C21.",), pytree_family), (("C25.", "Marginal"), marginal_family), (("C27.", "Rejuvenate"), rejuvenate_family), (("C31.",), time_travel_family), (("C17.",), choice_map_family), (("C26.",), smc_family),
+    (("C36.",), stateful_family), (("C09.", "incremental"), incremental_family), (("C04.",), key_family), (("C21.",), pytree_family), (("C25.", "Marginal"), marginal_family), (("C27.", "Rejuvenate"), rejuvenate_family), (("C31.",), time_travel_family), (("C17.",), choice_map_family), (("C26.",), smc_family),
     (("MaskCombinator", "MaskTrace"), mask_family), (("Distribution", "ExactDensity", "C24."), distribution_family),
     (("Dimap",), dimap_family), (("Switch",), switch_family), (("Vmap", "repeat"), vmap_family),
     (("Scan", "iterate", "accumulate", "reduce", "masked_iterate"), scan_family),
